@@ -188,3 +188,100 @@ fn c01_pending_twin_must_fail() {
     core::mem::forget(keep);
     core::mem::forget(attr);
 }
+
+/// position of the first drained message that announces / withdraws the given prefix
+fn first_pos(msgs: &Vec<bgp::Message>, second: bool, reach: bool) -> Option<usize> {
+    let mut i = 0;
+    while i < msgs.len() {
+        match &msgs[i] {
+            bgp::Message::Update(bgp::Update::Reach { entries, .. }) if reach => {
+                let mut j = 0;
+                while j < entries.len() {
+                    if is_prefix(&entries[j].nlri, second) {
+                        return Some(i);
+                    }
+                    j += 1;
+                }
+            }
+            bgp::Message::Update(bgp::Update::Unreach { entries, .. }) if !reach => {
+                let mut j = 0;
+                while j < entries.len() {
+                    if is_prefix(&entries[j].nlri, second) {
+                        return Some(i);
+                    }
+                    j += 1;
+                }
+            }
+            _ => {}
+        }
+        i += 1;
+    }
+    None
+}
+
+//@ id=C01 tier=off cap=3600 mem=40
+//@ fn: peer_tx::PendingTx::buffer_messages, PendingTx::unreach, PendingTx::reach, PendingTx::drain_messages
+//@ bound: initial dump buffered with one Reach(P1); then a symbolic choice of: withdraw P1 / announce P2 / nothing, before the first flush; one drain; unwind 6
+//@ desc: wire order = history order: the buffered initial dump leaves first, then withdrawals, then announcements, so a route withdrawn before the first flush does not survive at the neighbour; the queue is empty afterwards; End-of-RIB comes last
+#[kani::proof]
+#[kani::unwind(6)]
+fn c01_drain_order() {
+    let attr: Arc<Vec<packet::Attribute>> = Arc::new(Vec::new());
+    let keep = attr.clone();
+    let mut p = PendingTx::new(false);
+    let dump = bgp::Message::Update(bgp::Update::Reach {
+        family: Family::IPV4,
+        entries: {
+            let b = Box::into_raw(Box::new([packet::PathNlri {
+                path_id: 0,
+                nlri: prefix(false),
+            }])) as *mut packet::PathNlri;
+            unsafe { Vec::from_raw_parts(b, 1, 1) }
+        },
+        nexthop: Some(Nexthop::V4(Ipv4Addr::new(192, 0, 2, 1))),
+        attr: attr.clone(),
+    });
+    let b = Box::into_raw(Box::new([dump])) as *mut bgp::Message;
+    p.buffer_messages(unsafe { Vec::from_raw_parts(b, 1, 1) });
+    let k: u8 = kani::any();
+    kani::assume(k < 3);
+    match k {
+        0 => p.unreach(7, prefix(false), 0),
+        1 => p.reach(
+            8,
+            prefix(true),
+            0,
+            Some(Nexthop::V4(Ipv4Addr::new(192, 0, 2, 1))),
+            attr.clone(),
+        ),
+        _ => {}
+    }
+    let eor: bool = kani::any();
+    if eor {
+        p.schedule_eor();
+    }
+    let msgs = p.drain_messages(Family::IPV4);
+    assert!(p.is_empty());
+    let dump_pos = first_pos(&msgs, false, true);
+    assert!(dump_pos == Some(0));
+    match k {
+        0 => {
+            // the withdrawal of P1 must come AFTER the dump that announces P1
+            let w = first_pos(&msgs, false, false);
+            assert!(w.is_some() && w.unwrap() > 0);
+        }
+        1 => {
+            let a = first_pos(&msgs, true, true);
+            assert!(a.is_some() && a.unwrap() > 0);
+        }
+        _ => {}
+    }
+    let n = msgs.len();
+    assert!(n == 1 + (if k < 2 { 1 } else { 0 }) + (if eor { 1 } else { 0 }));
+    if eor {
+        assert!(matches!(&msgs[n - 1], bgp::Message::Update(bgp::Update::EndOfRib(_))));
+    }
+    kani::cover!(k == 0 && eor);
+    kani::cover!(k == 1);
+    core::mem::forget((msgs, p, keep, attr));
+}
